@@ -21,7 +21,44 @@ fn tri_idx(i: usize, j: usize) -> usize {
 fn random_pattern(rng: &mut Rng, n: usize) -> (BTreeSet<(usize, usize)>, &'static str) {
     let mut e = BTreeSet::new();
     let fam;
-    match rng.usize(0, 3) {
+    // large orders: a dense block of nine or more vertices with a tail of small overlapping cliques (a merge that is
+    // declined near the root and accepted below it needs a supernode of more than eight vertices)
+    let pick = if n >= 11 { 4 } else { rng.usize(0, 3) };
+    match pick {
+        4 => {
+            fam = "big_block_with_tail";
+            let tail = rng.usize(2, n - 9);
+            // tail: cliques of size 3..4 overlapping by two vertices
+            let w = rng.usize(3, 4);
+            let mut start = 0;
+            while start + w <= tail + 2 {
+                for j in start..start + w {
+                    for i in start..j {
+                        e.insert((i, j));
+                    }
+                }
+                start += w - 2;
+            }
+            // the block: vertices tail..n, overlapping the tail by two vertices
+            for j in tail.saturating_sub(0)..n {
+                for i in tail..j {
+                    e.insert((i, j));
+                }
+            }
+            for j in tail..n {
+                for i in tail.saturating_sub(2)..tail {
+                    if rng.bool(0.8) {
+                        e.insert((i, j));
+                    }
+                }
+            }
+            // keep the graph connected
+            for j in 1..n {
+                if !(0..j).any(|i| e.contains(&(i, j))) {
+                    e.insert((j - 1, j));
+                }
+            }
+        }
         0 => {
             fam = "banded";
             let bw = rng.usize(1, 2.min(n - 1));
@@ -106,7 +143,7 @@ pub fn sparse_sdp(rng: &mut Rng, with_inf: bool, small: bool) -> Sdp {
     for slot in 0..slots {
         let want_psd = placed < npsd && (slots - slot == npsd - placed || rng.bool(0.5));
         if want_psd {
-            let k = rng.usize(4, if small { 4 } else { 10 });
+            let k = if !small && rng.bool(0.15) { rng.usize(11, 15) } else { rng.usize(4, if small { 4 } else { 10 }) };
             let (e, fam) = random_pattern(rng, k);
             let mut mask = vec![false; k * (k + 1) / 2];
             for i in 0..k {
